@@ -17,7 +17,7 @@ CHECKS = {
               'pending list, that each rank batches exactly its own range within its limit, and that socket masters are '
               'the lowest rank of each processor name. The range/window arithmetic is REGENERATED from '
               'Process.__assign_job_indices/_read_data_chunk by harness/py2lean.py on every run and proved equal to the '
-              'hand model, so the kernel re-checks the theorem against the current source. ranks_see_initial_status - for EVERY '
+              'hand model (start, end and - generated_assign_first_end - the first batch end, explicitly), so the kernel re-checks the theorem against the current source. ranks_see_initial_status - for EVERY '
               'number of ranks and EVERY schedule (any interleaving that respects the barriers) a rank derives its range '
               'before any completion mark has been written, provided the synchronisation skeleton of compute() is Safe '
               '(one assign, a barrier after it, no mark before that barrier); the skeleton is EXTRACTED from the current '
